@@ -35,6 +35,7 @@ SPEC_MODULES = {
     "C14": ["specs.c14_threads"],
     "C15": ["specs.c15_portal"],
     "C16": ["specs.c16_buffered"],
+    "C18": ["specs.c18_sockets"],
     "C20": ["specs.c20_lru"],
 }
 
